@@ -409,9 +409,67 @@ def late_registration(part):
         judge(part, j, "2.1", inj, c, "registered-toplevel-extensions/" + label, 1 if inj else 0, stores=True)
 
 
+def run_legacy_layout(case, part):
+    """a STRICT file-system source over a directory that also holds files in the older flat layout (<type>/<id>.json, as written by earlier releases and other tools):
+    custom content in such a file is treated exactly like the same content in the current layout - never returned by a strict source"""
+    from stix2 import FileSystemSource, Filter
+    TS = "2016-05-12T08:17:27.000Z"
+    mk = lambda i, **kw: dict({"type": "identity", "spec_version": "2.1", "id": "identity--" + V4 + "%x" % i, "created": TS, "modified": TS, "name": "n%d" % i}, **kw)
+    plain_cur, custom_cur, custom_flat, plain_flat = mk(1), mk(2, x_foo="bar"), mk(3, x_foo="bar"), mk(4)
+    d = env.scratch_dir("c04l")
+    try:
+        def write(obj, flat, tdir="identity"):
+            base = os.path.join(d, tdir)
+            if flat:
+                os.makedirs(base, exist_ok=True)
+                path = os.path.join(base, obj["id"] + ".json")
+            else:
+                os.makedirs(os.path.join(base, obj["id"]), exist_ok=True)
+                path = os.path.join(base, obj["id"], "20160512081727000.json")
+            with open(path, "w") as f:
+                json.dump(obj, f)
+        write(plain_cur, False)
+        write(custom_cur, False)
+        write(custom_flat, True)
+        write(plain_flat, True)
+        # a type directory that holds flat files only
+        tool = {"type": "tool", "spec_version": "2.1", "id": "tool--" + V4 + "1", "created": TS, "modified": TS, "name": "t", "x_foo": "bar"}
+        write(tool, True, "tool")
+        for allow in (False, True):
+            src = FileSystemSource(d, allow_custom=allow)
+            verdict = {}
+            for oname, o in (("custom/current-layout", custom_cur), ("custom/flat-file-next-to-id-directories", custom_flat), ("custom/flat-file-only-directory", tool), ("plain/flat-file", plain_flat)):
+                for mname, fn in (("get", lambda o=o: src.get(o["id"])), ("all_versions", lambda o=o: src.all_versions(o["id"])),
+                                  ("query(id)", lambda o=o: src.query([Filter("id", "=", o["id"])])), ("query(type)", lambda o=o: [x for x in src.query([Filter("type", "=", o["type"])]) if x["id"] == o["id"]]),
+                                  ("query()", lambda o=o: [x for x in src.query([]) if x["id"] == o["id"]])):
+                    part.evaluations += 1
+                    part.transitions += 1
+                    try:
+                        r = fn()
+                        verdict[(oname, mname)] = "returned" if r else "nothing"
+                    except Exception as e:
+                        verdict[(oname, mname)] = "refused"
+            part.state(("legacy-layout", allow, tuple(sorted(verdict.items()))), nontrivial=True)
+            for (oname, mname), v in sorted(verdict.items()):
+                c = {"kind": "legacy-layout", "allow_custom": allow, "object": oname, "entry": "FileSystemSource." + mname}
+                if oname.startswith("custom/") and not allow and v == "returned":
+                    part.outcome("legacy:strict-RETURNED-custom")
+                    part.violation("C04/strict-store-returns/%s" % oname, "a strict file-system source returns custom content", c, verdict[("custom/current-layout", mname)] + " (as for the current layout)", v)
+                elif oname.startswith("custom/") and allow and v != "returned":
+                    part.violation("C04/permissive-store-hides/%s" % oname, "a permissive file-system source does not return stored custom content", c, "returned", v)
+                elif oname.startswith("plain/") and v != "returned" and mname not in ("query(type)", "query()") :
+                    part.violation("C04/strict-store-hides-plain/%s" % oname, "a file-system source does not return plain content", c, "returned", v)
+                else:
+                    part.outcome("legacy:%s" % v)
+    finally:
+        shutil.rmtree(d, ignore_errors=True)
+
+
 def run_case(case, part):
     env.reset()
     register_custom_types()
+    if case.get("kind") == "legacy-layout":
+        return run_legacy_layout(case, part)
     if case.get("kind") == "registered-toplevel":
         if case.get("label") is None or str(case.get("label")).startswith("late/"):
             late_registration(part)
@@ -486,6 +544,8 @@ def replay(case, part):
         return run_case({"kind": "unregistered", "version": c["version"]}, part)
     if c.get("kind") == "registered-toplevel":
         return run_case({"kind": "registered-toplevel", "label": c.get("label"), "type": c.get("type")}, part)
+    if c.get("kind") == "legacy-layout":
+        return run_case({"kind": "legacy-layout"}, part)
     if isinstance(c.get("injection"), list):
         c = {k: v for k, v in c.items() if k not in ("site", "injection")}
         c["pairs"] = True
@@ -503,7 +563,7 @@ def run(run):
         for key in g.top_keys():
             cases.append({"version": version, "key": key, "label": "min", "pairs": th})
             cases.append({"version": version, "key": key, "label": "max"})
-    cases += [{"kind": "unregistered", "version": "2.0"}, {"kind": "unregistered", "version": "2.1"}, {"kind": "registered-toplevel"}]
+    cases += [{"kind": "unregistered", "version": "2.0"}, {"kind": "unregistered", "version": "2.1"}, {"kind": "registered-toplevel"}, {"kind": "legacy-layout"}]
     run.mode = "DEV"
     run.rule = ("every (type, minimal|maximal base) x every injection site x injection kind x allow_custom x entry form, each also nested in a bundle%s; plus permissively pre-built sub-object "
                 "instances handed to strict and permissive parents; states = distinct bases; non-trivial = every injected case" % ("; all pairs of injections on minimal bases" if th else ""))
